@@ -60,6 +60,11 @@ func init() {
 			}
 			return nil
 		},
+		zz + "Observe": func(fr *frame, a []Value) Value {
+			tag, _ := concreteString(a[0].(Str))
+			fr.x.observes = append(fr.x.observes, observation{tag: tag, b: fr.x.bytesOf(a[1])})
+			return nil
+		},
 		zz + "Symbolic": func(fr *frame, a []Value) Value { return fr.x.f.Bool(true) },
 		zz + "SameBacking": func(fr *frame, a []Value) Value {
 			s1, s2 := a[0].(Slice), a[1].(Slice)
@@ -153,10 +158,31 @@ func init() {
 			return Tuple{fr.x.f.Const(64, 0), Iface{}}
 		},
 		"os.Exit": func(fr *frame, a []Value) Value {
-			c := fr.x.asInt(fr, a[0], "exit code")
-			fr.x.exitCode = &c
-			fr.x.reached[fmt.Sprintf("__exit_%d__", c)] = true
+			x := fr.x
+			c := x.asInt(fr, a[0], "exit code")
+			x.exitCode = &c
+			x.reached[fmt.Sprintf("__exit_%d__", c)] = true
+			if x.exitExpect == nil {
+				x.violate("exit", fmt.Sprintf("unexpected os.Exit(%d)", c), x.posOf(callerInstr(fr)))
+				panic(pathEnd{"unexpected exit"})
+			}
+			if *x.exitExpect != c {
+				x.violate("exit", fmt.Sprintf("os.Exit(%d), expected %d", c, *x.exitExpect), x.posOf(callerInstr(fr)))
+				panic(pathEnd{"unexpected exit"})
+			}
+			if x.atExit != nil {
+				f := x.atExit
+				x.atExit = nil
+				x.call(fr, fr.curInstr, f, nil)
+			}
 			panic(pathEnd{"os.Exit"})
+		},
+		zz + "ExpectExit": func(fr *frame, a []Value) Value {
+			x := fr.x
+			c := x.asInt(fr, a[0], "ExpectExit")
+			x.exitExpect = &c
+			x.atExit = a[1]
+			return nil
 		},
 
 		// ---- sync ----
